@@ -77,6 +77,43 @@ Example pin_tok_bin_to_urlsafe_base64 : tok_bin_to_urlsafe_base64 =
      (t "call:urlsafe_b64encode")].
 Proof. vm_compute. reflexivity. Qed.
 
+Example pin_tok_in__parse_datetime_iso_match : tok_in__parse_datetime_iso_match =
+    [(t "call:.groupdict");
+     (t "call:int");
+     (t "call:.get");
+     (t "s:year");
+     (t "call:int");
+     (t "call:.get");
+     (t "s:month");
+     (t "call:int");
+     (t "call:.get");
+     (t "s:day");
+     (t "call:int");
+     (t "call:.get");
+     (t "s:hr");
+     (t "call:int");
+     (t "call:.get");
+     (t "s:min");
+     (t "call:int");
+     (t "call:.get");
+     (t "s:sec");
+     (t "call:.get");
+     (t "s:sec_frac");
+     (t "op:Is");
+     (t "n:0");
+     (t "call:min");
+     (t "n:999999");
+     (t "call:int");
+     (t "call:round");
+     (t "call:float");
+     (t "op:*");
+     (t "f:0x1.e848000000000p+19");
+     (t "return");
+     (t "call:datetime");
+     (t "except:ValueError");
+     (t "raise:ValidationError")].
+Proof. vm_compute. reflexivity. Qed.
+
 Example pin_tok_in_boolean_from_bytes : tok_in_boolean_from_bytes =
     [(t "return");
      (t "call:.lower");
@@ -284,6 +321,17 @@ Example pin_tok_in_time_from_unicode : tok_in_time_from_unicode =
      (t "s:sec");
      (t "except:ValueError");
      (t "raise:ValidationError")].
+Proof. vm_compute. reflexivity. Qed.
+
+Example pin_tok_in_uuid_from_unicode : tok_in_uuid_from_unicode =
+    [(t "call:.get_cls_attrs");
+     (t "op:Is");
+     (t "op:In");
+     (t "s:bytes");
+     (t "s:bytes_le");
+     (t "except:ValueError,TypeError,UnicodeDecodeError");
+     (t "raise:ValidationError");
+     (t "return")].
 Proof. vm_compute. reflexivity. Qed.
 
 Example pin_tok_out__datetime_to_unicode : tok_out__datetime_to_unicode =
@@ -494,6 +542,15 @@ Example pin_tok_out_time_to_unicode : tok_out_time_to_unicode =
      (t "call:.isoformat")].
 Proof. vm_compute. reflexivity. Qed.
 
+Example pin_tok_out_uuid_to_unicode : tok_out_uuid_to_unicode =
+    [(t "call:.get_cls_attrs");
+     (t "op:Is");
+     (t "op:In");
+     (t "s:bytes");
+     (t "s:bytes_le");
+     (t "return")].
+Proof. vm_compute. reflexivity. Qed.
+
 Example pin_val_fmt_DateTime_dt_format : val_fmt_DateTime_dt_format =
     (t "None").
 Proof. vm_compute. reflexivity. Qed.
@@ -514,50 +571,10 @@ Example pin_val_fmt_Time_time_format : val_fmt_Time_time_format =
     (t "None").
 Proof. vm_compute. reflexivity. Qed.
 
-Example pin_val_re_DATETIME_PATTERN : val_re_DATETIME_PATTERN =
-    (t "(?P<year>\d{4})-(?P<month>\d{2})-(?P<day>\d{2})[T ](?P<hr>\d{2}):(?P<min>\d{2}):(?P<sec>\d{2})(?P<sec_frac>\.\d+)?").
+Example pin_val_fn_uuid_deserialize_default : val_fn_uuid_deserialize_default =
+    (t "None: lambda s: uuid.UUID(s.decode('ascii') if isinstance(s, bytes) else s),").
 Proof. vm_compute. reflexivity. Qed.
 
-Example pin_val_re_DATE_PATTERN : val_re_DATE_PATTERN =
-    (t "(?P<year>\d{4})-(?P<month>\d{2})-(?P<day>\d{2})").
-Proof. vm_compute. reflexivity. Qed.
-
-Example pin_val_re_DateTime_local : val_re_DateTime_local =
-    (t "(?P<year>\d{4})-(?P<month>\d{2})-(?P<day>\d{2})[T ](?P<hr>\d{2}):(?P<min>\d{2}):(?P<sec>\d{2})(?P<sec_frac>\.\d+)?\Z").
-Proof. vm_compute. reflexivity. Qed.
-
-Example pin_val_re_DateTime_offset : val_re_DateTime_offset =
-    (t "(?P<year>\d{4})-(?P<month>\d{2})-(?P<day>\d{2})[T ](?P<hr>\d{2}):(?P<min>\d{2}):(?P<sec>\d{2})(?P<sec_frac>\.\d+)?(?P<tz_hr>[+-]\d{2}):(?P<tz_min>\d{2})\Z").
-Proof. vm_compute. reflexivity. Qed.
-
-Example pin_val_re_DateTime_utc : val_re_DateTime_utc =
-    (t "(?P<year>\d{4})-(?P<month>\d{2})-(?P<day>\d{2})[T ](?P<hr>\d{2}):(?P<min>\d{2}):(?P<sec>\d{2})(?P<sec_frac>\.\d+)?Z\Z").
-Proof. vm_compute. reflexivity. Qed.
-
-Example pin_val_re_Date_offset : val_re_Date_offset =
-    (t "(?P<year>\d{4})-(?P<month>\d{2})-(?P<day>\d{2})((?P<tz_hr>[+-]\d{2}):(?P<tz_min>\d{2})|Z)\Z").
-Proof. vm_compute. reflexivity. Qed.
-
-Example pin_val_re_OFFSET_PATTERN : val_re_OFFSET_PATTERN =
-    (t "(?P<tz_hr>[+-]\d{2}):(?P<tz_min>\d{2})").
-Proof. vm_compute. reflexivity. Qed.
-
-Example pin_val_re_TIME_PATTERN : val_re_TIME_PATTERN =
-    (t "(?P<hr>\d{2}):(?P<min>\d{2}):(?P<sec>\d{2})(?P<sec_frac>\.\d+)?").
-Proof. vm_compute. reflexivity. Qed.
-
-Example pin_val_re_UUID_PATTERN : val_re_UUID_PATTERN =
-    (t "[a-fA-F0-9]{8}-[a-fA-F0-9]{4}-[a-fA-F0-9]{4}-[a-fA-F0-9]{4}-[a-fA-F0-9]{12}").
-Proof. vm_compute. reflexivity. Qed.
-
-Example pin_val_re_inbase_date : val_re_inbase_date =
-    (t "(?P<year>\d{4})-(?P<month>\d{2})-(?P<day>\d{2})").
-Proof. vm_compute. reflexivity. Qed.
-
-Example pin_val_re_inbase_duration : val_re_inbase_duration =
-    (t "(?P<sign>-?)P(?:(?P<years>\d+)Y)?(?:(?P<months>\d+)M)?(?:(?P<days>\d+)D)?(?:T(?:(?P<hours>\d+)H)?(?:(?P<minutes>\d+)M)?(?:(?P<seconds>\d+(\.\d+)?)S)?)?\Z").
-Proof. vm_compute. reflexivity. Qed.
-
-Example pin_val_re_inbase_time : val_re_inbase_time =
-    (t "(?P<hr>\d{2}):(?P<min>\d{2}):(?P<sec>\d{2})(?P<sec_frac>\.\d+)?").
+Example pin_val_fn_uuid_serialize_default : val_fn_uuid_serialize_default =
+    (t "<class 'str'>").
 Proof. vm_compute. reflexivity. Qed.
